@@ -132,6 +132,21 @@ def _has_global_phase(circuit):
     return any(isinstance(o.gate, cirq.GlobalPhaseGate) for o in cirq.decompose(circuit))
 
 
+def _raise_site(e):
+    """(file basename, function name) of the innermost repository frame of an exception's traceback -- used instead of the
+    wording of error messages to recognise a documented rejection."""
+    import os
+    import traceback
+
+    from vf import env
+
+    site = (None, None)
+    for fr in traceback.extract_tb(e.__traceback__):
+        if env.in_repo(fr.filename):
+            site = (os.path.basename(fr.filename), fr.name)
+    return site
+
+
 def _compile(case):
     g = case["gs"]
     gateset = CG.build_gateset(g)
@@ -145,13 +160,17 @@ def _compile(case):
             out = cirq.optimize_for_target_gateset(circuit, context=ctx, gateset=gateset, ignore_failures=False,
                                                    max_num_passes=case.get("passes"))
     except ValueError as e:
-        msg = str(e)
-        if g["k"] == "sqrt_iswap" and g.get("req") is not None and "cannot be decomposed into exactly" in msg:
+        # documented ValueErrors are recognised by situation (recipe) and raise site (traceback), never by their wording
+        site_file, _site_func = _raise_site(e)
+        if g["k"] == "sqrt_iswap" and g.get("req") is not None and site_file == "two_qubit_to_sqrt_iswap.py":
+            # SqrtIswapTargetGateset docstring: ValueError when a component cannot be synthesised with the required count
+            # (legitimacy of the rejection itself is cross-checked on single operations by `sqrt_iswap_required`)
             raise Reject("documented ValueError: required_sqrt_iswap_count")
-        if msg.startswith("Unable to convert"):
+        if site_file == "decompose_protocol.py":
+            # optimize_for_target_gateset docstring: ValueError if an operation fails to convert and ignore_failures is False
             if cirq.global_phase_operation(1j) not in gateset and _has_global_phase(circuit):
                 raise Reject(f"documented ValueError: global phase operation not convertible [{g['k']}]")
-            raise Violation(f"documented-as-possible ValueError for an input made of 1-3 qubit unitaries [{g['k']}]: {msg[:160]}")
+            raise Violation(f"documented-as-possible ValueError for an input made of 1-3 qubit unitaries [{g['k']}]\n{str(e)[:160]}")
         raise
     if circuit != before:
         raise Violation("optimize_for_target_gateset modified its input circuit")
@@ -271,9 +290,9 @@ def oracle_sqrt_iswap_required(case):
         gk = CG.build_gateset(dict(g, req=k))
         try:
             out = cirq.optimize_for_target_gateset(circuit, gateset=gk, ignore_failures=False, max_num_passes=case.get("passes"))
-        except ValueError as e:
-            if "cannot be decomposed into exactly" not in str(e):
-                raise
+        except ValueError:
+            # the situation is fully known from the recipe (one non-native 2-qubit unitary, required count k): any ValueError is
+            # the documented rejection, legitimate iff the reference says k gates cannot do it -- whatever the message says
             res[k] = "ValueError"
             needed = n_star > k or (k == 1 and n_star == 0)
             if not needed:
